@@ -4,6 +4,7 @@
 // prefix "K01d" on purpose: the object types and the `a || f(x)` splitting of wp k01dec (ext_k01dec.go, gated on "K01d") apply
 // to these kernels too.  monadic.go only calls the hook below (marked `// wp k01dec2`, after the hooks of the other packages).
 //
+//	main      -> kind `regionq`         = `region` + `ops : MatOps M` threaded through the emitted definitions
 //	genRegion -> fc.k01dec2RegionFuel   a region that contains a `for cond` loop or calls a fuelled method takes `(fuel : Nat)`
 //	mblock -> fc.k01dec2Stmt   `v, e := recv.M(args)` / `v, _ = recv.M(args)` / `recv.M(args)` with M a translated method of
 //	                           a struct parameter that WRITES its receiver (e.g. `bits.ReadBits(n)`: BitSource.byteOffset /
@@ -16,7 +17,10 @@ import (
 	"go/ast"
 	"go/token"
 	"go/types"
+	"regexp"
 	"strings"
+
+	"golang.org/x/tools/go/packages"
 )
 
 func k01dec2On() bool { return strings.HasPrefix(curModule, "K01de") }
@@ -264,4 +268,23 @@ func (fc *fnCtx) k01dec2RegionFuel(params []string) []string {
 		return params
 	}
 	return append([]string{"(fuel : Nat)"}, params...)
+}
+
+// k01dec2GenRegion: kind `regionq` = `region` + the threading of `ops : MatOps M` through the emitted definitions (as kind funcq
+// does for whole functions, ext_k01dec.go)
+func k01dec2GenRegion(p *packages.Package, e entry) (string, error) {
+	if !k01dec2On() {
+		return "", fmt.Errorf("kind regionq outside module K01de")
+	}
+	text, err := genRegion(p, e)
+	if err != nil {
+		return "", err
+	}
+	if !strings.Contains(text, "ops.") {
+		return text, nil
+	}
+	text = k01decBodyRe.ReplaceAllString(text, "$1 ops")
+	text = regexp.MustCompile(`(?m)^def ([A-Za-z_][A-Za-z0-9_]*_body[0-9]+) ops `).ReplaceAllString(text, "def $1 "+k01decHeader+" ")
+	text = strings.Replace(text, "\ndef "+e.lean+" ", "\ndef "+e.lean+" "+k01decHeader+" ", 1)
+	return text, nil
 }
